@@ -10,9 +10,8 @@ Judge(r) ==
   LET c == CertCfg(r.q) IN
   IF r.refused THEN (IF r.q.fn = "self_sign" /\ ~HasSameDay(Now(r.q), 20) THEN 20 ELSE 2)
   ELSE IF r.lay # Flat(Final(c)) THEN 3
-  ELSE IF Exact(r.q) /\ r.nb # NotBefore(r.q) THEN 4
-  ELSE IF Exact(r.q) /\ r.na # NotAfter(r.q) THEN 5
-  ELSE IF ~ValidityOk(r.q, r.nb, r.na) THEN 7
+  ELSE IF r.nb # NotBefore(r.q) THEN 4
+  ELSE IF r.na \notin NotAfter(r.q) THEN 5
   ELSE IF r.signed # SignedRange(c) THEN 6
   ELSE 1
 TInit == tid \in 1..Len(Traces) /\ TLCSet(tid, Judge(Traces[tid]))
